@@ -6,6 +6,7 @@ LEVEL = ("bounded symbolic execution of the real code over exact reals; every ob
          "(in)equalities decided by z3 (QF_LRA monomial abstraction of QF_NRA with solver-checked lemma selection; a sample of the unsat verdicts is re-decided by cvc5); "
          "counterexample candidates - concolic witnesses, recorded witness seeds, solver-made values of scalar inputs - are replayed on the unpatched float code before VIOLATION is printed")
 CLAIMED = {
+ "C18": ("POP: reported eigenvalues / patterns (mapped to PC space) are the eigen-decomposition - in the order idx_modes_sorted - of the feedback matrix C1 C0^-1 that the harness builds independently from the stored PCA-reduced data (the eig stub is a function of its input, so this needs the code to hand exactly that matrix to np.linalg.eig); A p == lambda p for the reported pairs; damping_times * log|lambda| == -1 and periods * angle(lambda) == 2 pi (log / angle uninterpreted); norms^2 == variance of the coefficient series, descending on every path; transform(X_fit) == scores() (without PCA a term identity; with PCA usually decided at the witness); noise-free x_{t+1} = A x_t without centring: C1 == A_true C0. Complex-pair witnesses (damped and growing); real-eigenvalue inputs and n_pca_modes >= 3 are outside the bound", "5 C18 and 9.7"),
  "C19": ("OPA: orthogonality / equal norm of the score series, bi-orthogonality of filter patterns and OPPs, reported decorrelation time == trapezoidal lag sum of the series own autocorrelation, descending order. Only part of the obligations is discharged symbolically (three chained SVD stubs); the rest is decided at witnesses (replayed) or reported INCONCLUSIVE", "5 C19"),
  "C20": ("per bootstrap member with ENUMERATED resample index vectors (rng stubbed): variances / components equal an independent EOF of exactly those rows, scores are the projection of the original samples, orthonormal components, non-negative descending variances, non-negative alignment statistic after the sign flip, member dimension length, seed forwarded", "5 C20"),
  "C11": ("kernel: real _varimax (1-2 iterations) and _promax on symbolic loadings: R unitary, Xrot == X R / X rot_mat; model level (promax contract): reconstruction from rotated scores == reconstruction from the same k unrotated modes, descending order on every path, Varimax keeps normalised scores orthonormal and conserves summed explained variance", "5 C11"),
@@ -29,7 +30,6 @@ NOTE = {
  "default": "exact real/complex arithmetic (no rounding); contract stubs for SVD/inv/pinv/eig/promax/sign convention; shapes n<=6, p<=4, k<=3; generic position (no exact ties); configurations (container, dims, flags, NaN mask, call sequence) enumerated concretely",
 }
 NA = {
- "C18": "POP is encoded (the real fit runs symbolically under svd / inv / eig stubs and a numpy proxy, props/C18.py) but nothing beyond formula identities is decided within reach: the eigenvector relation A p = lambda p over a generic complex eig contract leaves LIN problems of > 400 terms open, a 5x2 configuration exceeds 10 minutes, and real-eigenvalue witnesses hit the singular 2x2 pinv branch; registering it would give a check that cannot show the property on the current tree (see DESIGN.md 9.3)",
  "C12": "dask scheduling/laziness is a trace property of a third-party scheduler; symbolic scalars cannot flow through dask graph execution and a dask stub would assume the conclusion (DESIGN.md section 6)",
 }
 PENDING_REASON = "harness not finished yet in this round - not claimed (see DESIGN.md section 9)"
